@@ -62,10 +62,8 @@ fn check_name(row: u32, col: u32) {
 fn coordinate_to_name_rows() {
     let row: u32 = kani::any();
     kani::assume(row < 100);
-    let k: u8 = kani::any();
-    let col = if k == 0 { 0 } else if k == 1 { 27 } else { 16383 };
-    kani::cover!(row == 99 && k == 2);
-    check_name(row, col);
+    kani::cover!(row == 99);
+    check_name(row, 27);
 }
 #[kani::proof]
 #[kani::unwind(12)]
@@ -77,6 +75,7 @@ fn coordinate_to_name_cols() {
     check_name(7, col);
 }
 #[kani::proof]
+#[kani::unwind(12)]
 fn coordinate_to_name_err() {
     let row: u32 = kani::any();
     let col: u32 = kani::any();
@@ -85,8 +84,9 @@ fn coordinate_to_name_err() {
 }
 /// C06: no panic for any coordinate (fails: `cell.0 + 1` overflows for row == u32::MAX, which offset_cell_name produces from a negative offset)
 #[kani::proof]
+#[kani::unwind(12)]
 fn coordinate_to_name_total() {
     let row: u32 = kani::any();
-    kani::assume(row >= 0xFFFF_FF00);
-    let _ = coordinate_to_name((row, 16384));
+    kani::assume(row >= 0xFFFF_FFF0);
+    let _ = coordinate_to_name((row, 0));
 }
